@@ -363,7 +363,22 @@ func (w *world) csr(o int, how string, keyNo int) (*x509.CertificateRequest, []b
 
 // buildCSR: the CSR a client sends for an order with these identifiers
 func buildCSR(ids []string, how string, keyNo int) (*x509.CertificateRequest, []byte, error) {
+	return buildCSRFor(ids, how, keyNo, false)
+}
+
+// needCN: the provisioner has forceCN, which cannot be satisfied by a certificate without DNS names
+// ("cannot force common name", answered 500): the client names its first identifier in the common name
+func buildCSRFor(ids []string, how string, keyNo int, needCN bool) (*x509.CertificateRequest, []byte, error) {
 	tmpl := &x509.CertificateRequest{}
+	if needCN && len(ids) > 0 {
+		hasDNS := false
+		for _, id := range ids {
+			hasDNS = hasDNS || strings.HasPrefix(id, "dns:")
+		}
+		if t, v, _ := strings.Cut(ids[0], ":"); !hasDNS && (t == "ip" || t == "permanent-identifier") {
+			tmpl.Subject.CommonName = v
+		}
+	}
 	isWireOrder := false
 	for _, id := range ids {
 		t, v, _ := strings.Cut(id, ":")
@@ -458,6 +473,15 @@ func csrMatchesIDs(ids []string, csr *x509.CertificateRequest) bool {
 		ord.Identifiers = append(ord.Identifiers, acme.Identifier{Type: acme.IdentifierType(t), Value: v})
 	}
 	cp := *csr
+	// (Finalize: a common name that repeats the permanent identifier is not one of the DNS or IP names)
+	for _, id := range ord.Identifiers {
+		if id.Type == acme.PermanentIdentifier {
+			if cp.Subject.CommonName == id.Value {
+				cp.Subject.CommonName = ""
+			}
+			break
+		}
+	}
 	cp.DNSNames = append([]string(nil), csr.DNSNames...)
 	cp.IPAddresses = append([]net.IP(nil), csr.IPAddresses...)
 	_, err := ord.VerifSans(acme.VerifCanonicalize(&cp))
@@ -1705,11 +1729,13 @@ func main() {
 	if *stage == "router" {
 		// two environments: the provisioner from ca.json, and the same provisioner served from the
 		// admin database after the first enableAdmin start (ca.json -> linkedca -> provisioner)
-		envs := map[bool]*acmeenv.Env{}
-		used := map[bool]int{}
-		fresh := func(migrated bool) {
-			if envs[migrated] != nil {
-				envs[migrated].Close()
+		type envKey struct{ migrated, forceCN bool }
+		envs := map[envKey]*acmeenv.Env{}
+		used := map[envKey]int{}
+		fresh := func(key envKey) {
+			migrated := key.migrated
+			if envs[key] != nil {
+				envs[key].Close()
 			}
 			opts, err := wireOptions()
 			if err != nil {
@@ -1718,7 +1744,8 @@ func main() {
 			}
 			spec := []acmeenv.ProvSpec{{Name: rprov, Tmpl: &provisioner.ACME{Type: "ACME", Name: rprov,
 				Challenges:         []provisioner.ACMEChallenge{provisioner.HTTP_01, provisioner.DEVICE_ATTEST_01, provisioner.WIREOIDC_01, provisioner.WIREDPOP_01},
-				AttestationFormats: []provisioner.ACMEAttestationFormat{provisioner.STEP}, AttestationRoots: attRootPEM(), Options: opts}}}
+				AttestationFormats: []provisioner.ACMEAttestationFormat{provisioner.STEP}, AttestationRoots: attRootPEM(), Options: opts,
+				ForceCN: key.forceCN}}}
 			mk := acmeenv.New
 			if migrated {
 				mk = acmeenv.NewMigrated
@@ -1728,17 +1755,18 @@ func main() {
 				fmt.Fprintln(os.Stderr, "acmeenv:", err)
 				os.Exit(2)
 			}
-			envs[migrated], used[migrated] = e, 0
+			envs[key], used[key] = e, 0
 		}
 		emitR := func(k *RCase) {
 			if *names {
 				k.Names = true
 			}
-			if envs[k.Migrated] == nil || used[k.Migrated] >= 40 {
-				fresh(k.Migrated) // a new stack now and then keeps the certificate table scan short
+			key := envKey{k.Migrated, k.ForceCN}
+			if envs[key] == nil || used[key] >= 40 {
+				fresh(key) // a new stack now and then keeps the certificate table scan short
 			}
-			used[k.Migrated]++
-			line, impl := runRouter(envs[k.Migrated], k)
+			used[key]++
+			line, impl := runRouter(envs[key], k)
 			o.Case(line, impl)
 		}
 		defer func() {
